@@ -195,6 +195,59 @@ class _SockView:
             pass
 
 
+class RecOSPipe(_io.BufferedReader):
+    """the read end of a REAL operating-system pipe (what subprocess stdout, a FIFO or piped stdin gives): tell() / seek() fail with a
+    plain OSError; the data is fed by a writer thread"""
+
+    def __init__(self, data, events, maxcalls=None):
+        import os
+        import threading
+
+        r, w = os.pipe()
+        super().__init__(_io.FileIO(r, "rb"), buffer_size=64)
+        self.data = bytes(data)
+        self.events = events
+        self.pos = 0
+        self.calls = 0
+        self.maxcalls = maxcalls if maxcalls is not None else 6 * len(data) + 64
+
+        def feed():
+            try:
+                with os.fdopen(w, "wb") as f:
+                    f.write(self.data)
+            except OSError:
+                pass
+
+        self._feeder = threading.Thread(target=feed, daemon=True)
+        self._feeder.start()
+
+    def _tick(self):
+        self.calls += 1
+        if self.calls > self.maxcalls:
+            raise HangGuard()
+
+    def read(self, n=-1):
+        self._tick()
+        d = super().read(n)
+        self.pos += len(d)
+        self.events.append({"t": "read", "n": n, "got": len(d), "a": 0, "b": 0, "p": "", "fam": ""})
+        return d
+
+    def readline(self, *a):
+        self._tick()
+        d = super().readline(*a)
+        self.pos += len(d)
+        self.events.append({"t": "readline", "n": 0, "got": len(d), "a": 0, "b": 0, "p": "", "fam": ""})
+        return d
+
+    def finish(self):
+        try:
+            self.close()
+        except OSError:
+            pass
+        self._feeder.join(2)
+
+
 def family(ex):
     import pynmeagps.exceptions as nme
     import pyrtcm.exceptions as rte
@@ -247,7 +300,7 @@ def direct_parse(raw, msgmode=0, validate=1, pbf=1, labelmsm=1):
     return True, digest(m), ""
 
 
-def run_reader(data, filt=7, quit=1, parsing=True, handler=True, msgmode=0, validate=1, pbf=1, keep_reads=True, intern=None, labelmsm=1, bursts=(), kind="min", poll=False, pauses=()):
+def run_reader(data, filt=7, quit=1, parsing=True, handler=True, msgmode=0, validate=1, pbf=1, keep_reads=True, intern=None, labelmsm=1, bursts=(), kind="min", poll=False, pauses=(), resume=False):
     """One complete iteration of UBXReader over `data`.  Returns the run record."""
     from pyubx2 import UBXReader
 
@@ -259,12 +312,13 @@ def run_reader(data, filt=7, quit=1, parsing=True, handler=True, msgmode=0, vali
         from . import sock as _sock
 
         cuts = sorted({i for i, b in enumerate(data) if b == 0x0A and i > 0} | {k for k in range(3, len(data), 17)})
-        stream = _sock.ScriptSock(_sock.segments(bytes(data), cuts), "close", [])
+        stream = _sock.ScriptSock(_sock.segments(bytes(data), cuts), ("close", "timeout", "reset")[(len(data) + filt + quit) % 3], [])
         sockview = _SockView(stream, data)
     elif kind == "bytesio" and not bursts:
         stream = RecBytesIO(data, events)
     elif kind == "pipe" and not bursts:
-        stream = RecPipe(data, events)
+        # alternately an in-process non-seekable BufferedReader and the read end of a real OS pipe
+        stream = RecOSPipe(data, events) if (len(data) + filt) % 2 else RecPipe(data, events)
     else:
         stream = RecStream(data, events, bursts=bursts, pauses=pauses)
     errs = []
@@ -312,6 +366,7 @@ def run_reader(data, filt=7, quit=1, parsing=True, handler=True, msgmode=0, vali
             del _KEEP[:-2]
         it = iter(rdr)
         restarts = 0
+        resumed = 0
         while True:
             try:
                 raw, parsed = next(it)
@@ -334,6 +389,14 @@ def run_reader(data, filt=7, quit=1, parsing=True, handler=True, msgmode=0, vali
                 if not any(e["t"] == "item" for e in events[nev:]):
                     del events[nev:]  # the repeated end-of-stream reads themselves are not part of the logged run
                 break
+            except Exception as ex:  # noqa: BLE001
+                # an application that catches the protocol error raised under ERR_RAISE and carries on with the SAME iterator
+                if resume and quit == 2 and not family(ex).startswith("foreign") and resumed < 3000:
+                    resumed += 1
+                    events.append({"t": "raise", "n": 0, "got": 0, "a": 0, "b": stream.pos, "p": "", "fam": family(ex)})
+                    errs.append(ex)
+                    continue
+                raise
             ok_raw = isinstance(raw, (bytes, bytearray))
             rb = bytes(raw) if ok_raw else b""
             items.append({"raw": rb, "ok_raw": ok_raw, "endpos": stream.pos, "pt": ptype(parsed), "pd": digest(parsed)})
@@ -350,18 +413,20 @@ def run_reader(data, filt=7, quit=1, parsing=True, handler=True, msgmode=0, vali
         else:
             end = "raise"
             endfam = fam
-            events.append({"t": "raise", "n": 0, "got": 0, "a": 0, "b": stream.pos, "p": "", "fam": fam})
+            events.append({"t": "raise", "n": 0, "got": 0, "a": 0, "b": getattr(stream, "pos", 0), "p": "", "fam": fam})
     if use_alarm:
         signal.alarm(0)
         signal.signal(signal.SIGALRM, old)
     if sockview is not None:
         sockview.close()
+    if isinstance(stream, RecOSPipe):
+        stream.finish()
     run = {
         "filter": filt, "quit": quit, "parsing": 1 if parsing else 0, "handler": 1 if handler else 0,
         "msgmode": msgmode, "validate": validate, "pbf": pbf,
         # unread = what the underlying stream still holds (for a socket: what was never received; a truncated tail legitimately
         # stays in the wrapper's buffer, whose read(n) is all-or-nothing)
-        "end": end, "endfam": endfam, "left": (len(stream.data) - stream.pos) if sockview is None else (len(stream.data) - sockview.received()),
+        "end": end, "endfam": endfam, "left": (len(data) - stream.pos) if sockview is None else (len(data) - sockview.received()),
         "errfams": [family(e) for e in errs],
         "raised_same": -1,
     }
